@@ -24,29 +24,41 @@ from vlib import c18_lib as L
 from vlib.c18_lib import AND, OR, NOT, SUM, NUM, ty, Unsupported
 
 ID = 'C18'
-RULE = ("One shard per registered verit_* macro (enumerated from kernel.theory.global_macros, so an unknown rule shows "
+RULE = ("One shard per registered verit_* macro (85, enumerated from kernel.theory.global_macros, so an unknown rule shows "
         "up as not claimed). Correct instances come from per-rule templates written from the Alethe rule definitions "
         "over drawn atoms (boolean variables, equalities / predicates over uninterpreted terms, linear atoms over int "
-        "and real, small compound formulas); near misses are derived mechanically from a correct instance by ONE "
-        "mutation: clause literal dropped/added/negated/double-negated/duplicated/swapped; premise dropped/duplicated/"
-        "swapped/added/replaced; a sub-term negated, its connective swapped (and/or/imp/iff/xor, </<=/>/>=, +/-/*, "
-        "forall/exists), replaced by another term of the same type, shortened, lengthened, operands swapped, a numeral "
-        "perturbed; clause sizes, Farkas coefficients, context or instantiation perturbed (for la_generic a literal "
-        "perturbation may be combined with a coefficient perturbation). macro.eval(args, prevs) is called exactly as "
-        "ProofReconstruction.validate_step does in eval mode. If it returns a theorem H |- C: (a) H must be contained "
-        "in the premise hypotheses (plus context equations for contextual rules); (b) 'every model of all premise "
-        "sequents satisfies H ==> C' is decided by an independent encoding (truth table for propositional problems, "
-        "otherwise own z3 encoding of bool/EUF/LIA/LRA/quantifiers, bounded by rlimit) and a z3 counter-model only counts after "
-        "re-evaluation of premises and conclusion by the module's own evaluator. Non-trivial = accepted instance "
-        "(distinct by canonical JSON). Notes give per rule: accepted-correct, rejected-correct, accepted-nm-valid, "
-        "accepted-nm-INVALID, rejected-nm, inconclusive; 'not-claimed/<rule>' marks rules without any accepted instance.")
+        "and real, small compound formulas); each case is the deterministic expansion of one Hypothesis-drawn integer. "
+        "Near misses are derived mechanically from a correct instance by ONE mutation: clause literal dropped / added / "
+        "negated / double-negated / duplicated / swapped; premise dropped / duplicated / swapped / added / replaced; a "
+        "sub-term negated, un-negated (negation replaced by another operator with the same last argument), its "
+        "connective swapped (and/or/imp/iff/xor, </<=/>/>=, +/-/*, forall/exists), replaced by another term of the same "
+        "type (once or everywhere), shortened, lengthened, operands swapped, a numeral perturbed; clause sizes, Farkas "
+        "coefficients, context or instantiation perturbed (for la_generic a literal perturbation may be combined with a "
+        "coefficient perturbation). macro.eval(args, prevs) is called exactly as ProofReconstruction.validate_step "
+        "does in eval mode. If it returns a theorem H |- C: (a) H must be contained in the premise hypotheses (plus "
+        "context equations for contextual rules); (b) 'every model of all premise sequents satisfies H ==> C' is "
+        "decided by an independent encoding (truth table for propositional problems, otherwise own z3 encoding of "
+        "bool/EUF/LIA/LRA/quantifiers, bounded by rlimit) and a z3 counter-model only counts after re-evaluation of "
+        "premises and conclusion by the module's own evaluator; when the conclusion only fails because premise "
+        "hypotheses were dropped the signature is <rule>:drops-hypotheses. Three extra shards run generated "
+        "refutations (assume + or/and/not_and/implies + resolution tree ending in the empty clause, and one-step "
+        "mutations of them) through ProofReconstruction.validate(is_eval=True): an accepted proof must end in a clause "
+        "entailed by the assumed formulas. Non-trivial = accepted instance (distinct by canonical JSON). Notes give "
+        "per rule: accepted-correct, rejected-correct, accepted-nm-valid, accepted-nm-INVALID, "
+        "accepted-INVALID-correct, rejected-nm, accepted-unjudged; 'not-claimed/<rule>' marks rules without any "
+        "accepted instance.")
 ASSUMPTIONS = [
     "instances are generated (no veriT binary / proof corpus offline); rules tied to solver-specific normal forms may "
-    "have no accepted instance and are then listed under notes 'not-claimed/<rule>'",
+    "have no accepted instance and are then listed under notes 'not-claimed/<rule>' (imp_conj, imp_disj, round_lia "
+    "have no eval method at all)",
     "free variables are read as constants (one valuation for premises and conclusion); for bind the premise is "
-    "universally closed over the context variables",
+    "universally closed over the context variables; for onepoint the goal must be valid on its own (eval ignores "
+    "the premise)",
     "sko_ex, sko_forall and let need Hilbert-choice / let terms the oracle does not decide: exercised, but an accepted "
-    "instance is only counted, never judged (inconclusive)",
+    "instance is only counted (accepted-unjudged), never judged",
+    "division by zero and quantifiers over int/real make a counter-model non-evaluable: inconclusive",
+    "conj_pts, disj_pts, norm_lia, norm_lra are helper macros, but a proof file can name them as a rule "
+    "(validate_step prefixes 'verit_' to any rule name), so they are exercised like rules",
     "rejections (exceptions) and completeness are never flagged",
 ]
 SHRINK_SECONDS = 8
